@@ -3,6 +3,8 @@
 -/
 import N2V.Lemmas.SchedExamples
 import N2V.Model.Run
+import N2V.Lemmas.WorldSettledD
+import N2V.Lemmas.SchedDone2
 namespace N2V.C05
 open N2V N2V.Sched
 
@@ -115,5 +117,33 @@ theorem success_means_no_failure {E : Type} {g : Graph} (gok : GraphOK g) (a : R
 
 example : budgetTrace Ex.a0.failuresLeft (Run.build Ex.g0 Ex.a0 Ex.c1 ()).1.trace = true ∧
     fails (sf (Run.build Ex.g0 Ex.a0 Ex.c1 ()).1.trace) = 1 := by decide
+
+/-- **A failed or interrupted command is never recorded as up to date.**  In any invocation that
+    ends in success or in an ordinary failure (no reload; no input-rewriting commands; remembered
+    dependencies of finished steps are source files): every record the invocation appended to the
+    build log carries the outputs of a step that is `Done` at the end - so no record was written
+    for a step that is `Failed` (or still running / waiting) when the invocation stops, and the
+    next start-up attaches nothing new to such a step. -/
+theorem failed_command_is_never_recorded (w : Work.World) (m : Bytes) (l : Load.Loader) (e0 : Work.Env)
+    (hl : Work.loadEnv w m = .ok (l, e0)) (plain : Work.PlainD e0.g)
+    (a : Run.Args) (adopt : Bool) (perms : List (List Nat)) (fin : List (Nat × Term))
+    (h : (∃ n, (Run.build (Work.schedGraph e0.g) a (Work.choices adopt perms fin) e0).2.2 = .done n) ∨
+         (Run.build (Work.schedGraph e0.g) a (Work.choices adopt perms fin) e0).2.2 = .failed)
+    (hsrc : Work.GoodD (Run.build (Work.schedGraph e0.g) a (Work.choices adopt perms fin) e0).1
+              (Run.build (Work.schedGraph e0.g) a (Work.choices adopt perms fin) e0).2.1)
+    (b : Nat) (hb : (Run.build (Work.schedGraph e0.g) a (Work.choices adopt perms fin) e0).1.st b ≠ .done) :
+    ∀ r ∈ Work.newLog e0 (Run.build (Work.schedGraph e0.g) a (Work.choices adopt perms fin) e0).2.1,
+      Db.attributeRec (Work.producerByName e0.g) r.outs ≠ some b := by
+  obtain ⟨inv0, gok, _⟩ := Work.loadEnv_graph_ok w m l e0 hl
+  obtain ⟨hc0, _, _, _⟩ := Work.loadEnv_frame w m l e0 hl
+  obtain ⟨_, l0⟩ := Work.loadEnv_loaded0 w m l e0 hl
+  have j := Run.build_done_or_failed gok a _ (Work.JG e0) (Work.jd_spec e0 inv0 l0 plain adopt perms fin) e0
+    (Work.jg_initial e0 a inv0 l0 hc0) h hsrc
+  intro r hr hatt
+  obtain ⟨x, bmx, hx1, hx2, hx3⟩ := j.newRecs r hr
+  rw [hx3] at hatt
+  have := Work.attributed_unique e0.g inv0 b x bmx hx2 hatt
+  subst this
+  exact hb hx1
 
 end N2V.C05
